@@ -64,3 +64,21 @@ func TestVerifFindingSelfInclude(t *testing.T) {
 		t.Logf("returned error value: %v", err)
 	}
 }
+
+// C19: lemma:roundtrip1_all_latin1 — OPEN finding (demonstration; fails on the current tree):
+// runes 0x80-0x9F and 0xFF do not survive Escape followed by Unescape.
+func TestVerifFindingEscapeLatin1(t *testing.T) {
+	bad := 0
+	for c := rune(0); c <= 0xff; c++ {
+		s := string(c)
+		if got := Unescape(Escape(s)); got != s {
+			bad++
+			if bad <= 3 {
+				t.Errorf("Unescape(Escape(%q)) = %q (escaped as %q)", s, got, Escape(s))
+			}
+		}
+	}
+	if bad > 0 {
+		t.Errorf("%d of 256 single runes do not round-trip", bad)
+	}
+}
